@@ -22,8 +22,7 @@ def u_lhs(U):
     def body_end(ex_, s, o, j):
         cols = s.ghost.get('columns', [])
         if len(cols) != 1:
-            ex_.oblige(s, 'post', 'each-mode-fills-exactly-one-column', False, None, assume=False)
-            return
+            raise M.ContractMismatch('sample_lhs: one mode does not fill exactly one column (as seen by the store model of ttvc/rnd.py)')
         col, vec = cols[0]
         k = narr[j]
         fd = [q for (a, b, q) in s.ghost.get('floordiv', [])]
